@@ -120,8 +120,14 @@ fn worker_dir() -> PathBuf {
 
 static RUNS: AtomicU64 = AtomicU64::new(0);
 
+/// heartbeat file of a shard process (progress at the granularity of one pipeline run)
+static HEARTBEAT: Mutex<Option<PathBuf>> = Mutex::new(None);
+
 fn run_one(text: &str, opts: &Opts, key: (u64, u64)) -> Outcome {
-    RUNS.fetch_add(1, Ordering::Relaxed);
+    let n = RUNS.fetch_add(1, Ordering::Relaxed);
+    if let Some(p) = HEARTBEAT.lock().unwrap().as_ref() {
+        let _ = std::fs::write(p, n.to_string());
+    }
     let dir = worker_dir();
     let text = text.to_string();
     let opts = opts.clone();
@@ -511,6 +517,7 @@ fn run_shard(tier: Tier, only: Option<&str>, si: usize, sn: usize, out: &Path) -
     if let Some(o) = only {
         cases.retain(|c| c.origin == o || c.origin.strip_prefix("corpus:") == Some(o));
     }
+    *HEARTBEAT.lock().unwrap() = Some(out.with_extension("hb"));
     let mut f = std::io::BufWriter::new(std::fs::File::create(out).unwrap_or_else(|e| harness_error(&format!("shard output: {e}"))));
     // interleave cheap and expensive cases: position in the list, not the id, decides the shard
     for (pos, c) in cases.iter().enumerate() {
@@ -564,7 +571,10 @@ fn run_sharded(tier: Tier, only: Option<&str>, n_cases: usize, workers: usize) -
         for (i, (c, out)) in children.iter_mut().enumerate() {
             if let Ok(None) = c.try_wait() {
                 all_done = false;
-                let len = std::fs::metadata(&*out).map(|m| m.len()).unwrap_or(0);
+                // progress = the shard's heartbeat (one tick per pipeline run), not finished cases:
+                // a heavy case with 33 runs may legitimately take many minutes on a loaded machine
+                let len = std::fs::read_to_string(out.with_extension("hb")).ok().and_then(|t| t.trim().parse::<u64>().ok()).unwrap_or(0)
+                    + std::fs::metadata(&*out).map(|m| m.len()).unwrap_or(0);
                 if len != last_progress[i].0 {
                     last_progress[i] = (len, std::time::Instant::now());
                 } else if last_progress[i].1.elapsed() > stall {
@@ -579,7 +589,7 @@ fn run_sharded(tier: Tier, only: Option<&str>, n_cases: usize, workers: usize) -
                 let _ = c.wait();
             }
             harness_error(&format!(
-                "shard {i} made no progress for {} s after {done_lines} cases: a pipeline run does not terminate (not a C24 verdict). Re-run with VERIF_PROGRESS=1 VERIF_KEEP_STDERR=1 VERIF_WORKERS=1 to see the case",
+                "shard {i} made no progress for {} s after {done_lines} cases: a single pipeline run does not terminate (not a C24 verdict). Re-run with VERIF_PROGRESS=1 VERIF_KEEP_STDERR=1 VERIF_WORKERS=1 to see the case",
                 stall.as_secs()
             ));
         }
